@@ -10,6 +10,7 @@ Fixpoint size (e : expr) : nat :=
   | EParen x => S (size x)
   | EUn _ x => S (size x)
   | EBin _ l r => S (size l + size r)
+  | ECast x _ => S (size x)
   end.
 
 (** number of binary operators met by the top-level loop while reading [e] *)
@@ -38,9 +39,15 @@ Definition head_ok (lim : N) (rest : list ptok) : bool :=
   | _ => true
   end.
 
+(** [rest] does not start with a cast / with "<" *)
+Definition head_free (rest : list ptok) : bool := match rest with KCast _ :: _ => false | _ => true end.
+Definition lt_free (rest : list ptok) : bool := match rest with KOp SLt :: _ => false | _ => true end.
+(** a text ending with a cast to a bare type name is not followed by "<" *)
+Definition cast_ok (e : expr) (rest : list ptok) : bool := negb (ends_bare (print_plain e)) || lt_free rest.
+
 Lemma head_ok_mono a b rest : head_ok a rest = true -> a <= b -> head_ok b rest = true.
 Proof.
-  unfold head_ok. destruct rest as [|[x|s| |] rest]; try reflexivity.
+  unfold head_ok. destruct rest as [|[x|s| | |k] rest]; try reflexivity.
   destruct (binop_of_sym s) as [o|]; [|reflexivity].
   intros H L. apply Bool.negb_true_iff in H. apply N.ltb_ge in H.
   apply Bool.negb_true_iff. apply N.ltb_ge. lia.
@@ -49,7 +56,7 @@ Qed.
 Lemma loop_stops sub lim g e rest :
   head_ok lim rest = true -> loop_with sub lim (S g) e rest = Some (e, rest).
 Proof.
-  unfold head_ok. cbn [loop_with]. destruct rest as [|[x|s| |] rest]; try reflexivity.
+  unfold head_ok. cbn [loop_with]. destruct rest as [|[x|s| | |k] rest]; try reflexivity.
   destruct (binop_of_sym s) as [o|]; [|reflexivity].
   intros H. apply Bool.negb_true_iff in H. rewrite H. reflexivity.
 Qed.
@@ -64,8 +71,23 @@ Proof. cbn [rp]. lia. Qed.
 Lemma rp_le_un u x : rp (EUn u x) <= UNARY_PRIORITY /\ rp (EUn u x) <= rp x.
 Proof. cbn [rp]. lia. Qed.
 
+Lemma with_cast_none e t : head_free t = true -> with_cast e t = Some (e, t).
+Proof. destruct t as [|[x|s| | |k] t]; intros H; try reflexivity. discriminate H. Qed.
+
+Lemma with_cast_some e k t :
+  (k = CBare -> lt_free t = true) -> with_cast e (KCast k :: t) = Some (ECast e k, t).
+Proof.
+  intros H. cbn [with_cast]. destruct k; [|reflexivity].
+  specialize (H eq_refl). destruct t as [|[x|s| | |k] t]; try reflexivity.
+  destruct s; try reflexivity. discriminate H.
+Qed.
+
 Lemma subexpr_atom f lim a t :
-  subexpr (S f) lim (KAtom a :: t) = loop_with (subexpr f) lim f (EAtom a) t.
+  subexpr (S f) lim (KAtom a :: t) =
+  match with_cast (EAtom a) t with
+  | Some (e, t') => loop_with (subexpr f) lim f e t'
+  | None => None
+  end.
 Proof. reflexivity. Qed.
 
 Lemma subexpr_un f lim u t :
@@ -79,68 +101,144 @@ Proof. cbn [subexpr]. rewrite unop_sym_roundtrip. reflexivity. Qed.
 Lemma subexpr_paren f lim t :
   subexpr (S f) lim (KLp :: t) =
   match subexpr f 0 t with
-  | Some (c, KRp :: t') => loop_with (subexpr f) lim f (EParen c) t'
+  | Some (c, KRp :: t') =>
+    match with_cast (EParen c) t' with
+    | Some (e, t'') => loop_with (subexpr f) lim f e t''
+    | None => None
+    end
   | _ => None
   end.
 Proof. reflexivity. Qed.
 
+Lemma print_plain_nonempty e : print_plain e <> [].
+Proof.
+  destruct e; cbn [print_plain]; try discriminate;
+    intros H; apply app_eq_nil in H as [_ H]; discriminate H.
+Qed.
+
+Lemma last_app_nonempty {A} (x y : list A) d : y <> [] -> last (x ++ y) d = last y d.
+Proof.
+  intros Hy. induction x as [|a x IH]; [reflexivity|].
+  cbn [app]. destruct (x ++ y) eqn:E.
+  - apply app_eq_nil in E as [_ E]. contradiction.
+  - exact IH.
+Qed.
+
+Lemma last_cons_nonempty {A} (a : A) (y : list A) d : y <> [] -> last (a :: y) d = last y d.
+Proof. intros Hy. destruct y; [contradiction|reflexivity]. Qed.
+
+Lemma ends_bare_bin o l r : ends_bare (print_plain (EBin o l r)) = ends_bare (print_plain r).
+Proof.
+  unfold ends_bare. cbn [print_plain]. rewrite last_app_nonempty by discriminate.
+  rewrite last_cons_nonempty by apply print_plain_nonempty. reflexivity.
+Qed.
+Lemma ends_bare_un u x : ends_bare (print_plain (EUn u x)) = ends_bare (print_plain x).
+Proof.
+  unfold ends_bare. cbn [print_plain]. rewrite last_cons_nonempty by apply print_plain_nonempty. reflexivity.
+Qed.
+Lemma ends_bare_paren x : ends_bare (print_plain (EParen x)) = false.
+Proof.
+  unfold ends_bare. cbn [print_plain]. rewrite last_cons_nonempty.
+  - rewrite last_app_nonempty by discriminate. reflexivity.
+  - intros E. apply app_eq_nil in E as [_ E]. discriminate E.
+Qed.
+Lemma ends_bare_cast x k : ends_bare (print_plain (ECast x k)) = match k with CBare => true | CParam => false end.
+Proof.
+  unfold ends_bare. cbn [print_plain]. rewrite last_app_nonempty by discriminate. destruct k; reflexivity.
+Qed.
+
+Lemma lt_free_binop o t : lt_free (KOp (sym_of_binop o) :: t) = negb (is_lt o).
+Proof. destruct o; reflexivity. Qed.
+
+Lemma adm0 e : adm 0 e = true.
+Proof. destruct e as [a|o l r|u x|x|x k]; try reflexivity. cbn [adm]. destruct o; reflexivity. Qed.
+
 (** THE READING LEMMA: with enough fuel, reading the text of a well-parenthesised [e] followed
     by [rest] yields [e] and continues the loop on [rest] *)
-Lemma read_expr : forall e, wp e = true ->
+Lemma read_expr : forall n e, (size e <= n)%nat -> wp e = true ->
   forall F lim rest, (size e <= F)%nat -> adm lim e = true -> head_ok (rp e) rest = true ->
+  head_free rest = true -> cast_ok e rest = true ->
   subexpr (S F) lim (print_plain e ++ rest) = loop_with (subexpr F) lim (F - spine e) e rest.
 Proof.
-  induction e as [a|o l IHl r IHr|u x IHx|x IHx]; intros Hwp F lim rest HF Hadm Hhead.
+  induction n as [|n IH]; intros e Hn Hwp F lim rest HF Hadm Hhead Hfree Hcast.
+  { destruct e; cbn [size] in Hn; lia. }
+  destruct e as [a|o l r|u x|x|x k].
   - (* atom *)
-    cbn [print_plain app spine]. rewrite subexpr_atom, Nat.sub_0_r. reflexivity.
+    cbn [print_plain app spine]. rewrite subexpr_atom, (with_cast_none _ _ Hfree), Nat.sub_0_r. reflexivity.
   - (* binary *)
     cbn [wp] in Hwp.
-    apply andb_true_iff in Hwp as [Hwp Hr]. apply andb_true_iff in Hwp as [Hwp Hrp].
+    apply andb_true_iff in Hwp as [Hwp Hlt]. apply andb_true_iff in Hwp as [Hwp Hr].
+    apply andb_true_iff in Hwp as [Hwp Hrp].
     apply andb_true_iff in Hwp as [Hwp Hl]. apply andb_true_iff in Hwp as [Wl Wr].
-    cbn [size] in HF. cbn [adm] in Hadm.
+    cbn [size] in HF, Hn. cbn [adm] in Hadm.
     cbn [print_plain]. rewrite <- app_assoc. cbn [app].
     (* read l *)
-    rewrite (IHl Wl F lim (KOp (sym_of_binop o) :: print_plain r ++ rest)); [|lia| |].
-    2:{ destruct l as [a|o' l1 l2|u' l1|l1]; try reflexivity. cbn [adm].
+    rewrite (IH l ltac:(lia) Wl F lim (KOp (sym_of_binop o) :: print_plain r ++ rest)); [|lia| | |reflexivity|].
+    2:{ destruct l as [a|o' l1 l2|u' l1|l1|l1 k1]; try reflexivity. cbn [adm].
         apply N.leb_le in Hl. apply N.ltb_lt in Hadm. apply N.ltb_lt. lia. }
     2:{ cbn [head_ok]. rewrite binop_sym_roundtrip. apply Bool.negb_true_iff. apply N.ltb_ge.
         apply N.leb_le in Hrp. exact Hrp. }
+    2:{ unfold cast_ok. rewrite lt_free_binop.
+        apply Bool.negb_true_iff in Hlt. destruct (is_lt o); [|apply orb_true_r].
+        cbn [andb] in Hlt. rewrite Hlt. reflexivity. }
     (* one iteration of the loop: the operator o *)
     pose proof (spine_lt_size l) as Sl. pose proof (spine_lt_size r) as Sr.
     destruct (F - spine l)%nat as [|g] eqn:Eg; [lia|].
     cbn [loop_with]. rewrite binop_sym_roundtrip, Hadm.
     (* read r with the fuel of the nested call *)
     destruct F as [|F0]; [lia|].
-    rewrite (IHr Wr F0 (rprio o) rest); [|lia| |].
-    2:{ destruct r as [a|o' r1 r2|u' r1|r1]; try reflexivity. exact Hr. }
+    rewrite (IH r ltac:(lia) Wr F0 (rprio o) rest); [|lia| | |exact Hfree|].
+    2:{ destruct r as [a|o' r1 r2|u' r1|r1|r1 k1]; try reflexivity. exact Hr. }
     2:{ apply (head_ok_mono _ _ _ Hhead). apply rp_le_bin. }
+    2:{ unfold cast_ok in *. rewrite ends_bare_bin in Hcast. exact Hcast. }
     destruct (F0 - spine r)%nat as [|g2] eqn:Eg2; [lia|].
     rewrite loop_stops.
     2:{ apply (head_ok_mono _ _ _ Hhead). apply rp_le_bin. }
     cbn [spine]. replace (S F0 - S (spine l))%nat with g by lia. reflexivity.
   - (* unary *)
     cbn [wp] in Hwp. apply andb_true_iff in Hwp as [Wx Hx].
-    cbn [size] in HF. cbn [print_plain app].
+    cbn [size] in HF, Hn. cbn [print_plain app].
     destruct F as [|F0]; [lia|].
     rewrite subexpr_un.
     pose proof (spine_lt_size x) as Sx.
-    rewrite (IHx Wx F0 UNARY_PRIORITY rest); [|lia| |].
-    2:{ destruct x as [a|o' x1 x2|u' x1|x1]; try reflexivity. exact Hx. }
+    rewrite (IH x ltac:(lia) Wx F0 UNARY_PRIORITY rest); [|lia| | |exact Hfree|].
+    2:{ destruct x as [a|o' x1 x2|u' x1|x1|x1 k1]; try reflexivity. exact Hx. }
     2:{ apply (head_ok_mono _ _ _ Hhead). apply rp_le_un. }
+    2:{ unfold cast_ok in *. rewrite ends_bare_un in Hcast. exact Hcast. }
     destruct (F0 - spine x)%nat as [|g2] eqn:Eg2; [lia|].
     rewrite loop_stops.
     2:{ apply (head_ok_mono _ _ _ Hhead). apply rp_le_un. }
     cbn [spine]. rewrite Nat.sub_0_r. reflexivity.
   - (* parentheses *)
-    cbn [wp] in Hwp. cbn [size] in HF. cbn [print_plain app]. rewrite <- app_assoc. cbn [app].
+    cbn [wp] in Hwp. cbn [size] in HF, Hn. cbn [print_plain app]. rewrite <- app_assoc. cbn [app].
     destruct F as [|F0]; [lia|].
     rewrite subexpr_paren.
     pose proof (spine_lt_size x) as Sx.
-    rewrite (IHx Hwp F0 0 (KRp :: rest)); [|lia| |reflexivity].
-    2:{ destruct x as [a|o' x1 x2|u' x1|x1]; try reflexivity. cbn [adm]. destruct o'; reflexivity. }
+    rewrite (IH x ltac:(lia) Hwp F0 0 (KRp :: rest)); [|lia|apply adm0|reflexivity|reflexivity|].
+    2:{ unfold cast_ok. apply orb_true_r. }
     destruct (F0 - spine x)%nat as [|g2] eqn:Eg2; [lia|].
     rewrite loop_stops by reflexivity.
+    rewrite (with_cast_none _ _ Hfree).
     cbn [spine]. rewrite Nat.sub_0_r. reflexivity.
+  - (* cast: the inner expression is an atom or is between parentheses *)
+    cbn [wp] in Hwp. apply andb_true_iff in Hwp as [Wx Hshape].
+    cbn [size] in HF, Hn.
+    assert (Hk : k = CBare -> lt_free rest = true).
+    { intros ->. unfold cast_ok in Hcast. rewrite ends_bare_cast in Hcast. exact Hcast. }
+    destruct x as [a|o' x1 x2|u' x1|y|x1 k1]; try discriminate Hshape.
+    + cbn [print_plain app spine].
+      rewrite subexpr_atom, (with_cast_some _ _ _ Hk), Nat.sub_0_r. reflexivity.
+    + cbn [wp] in Wx. cbn [size] in HF, Hn.
+      cbn [print_plain app]. rewrite <- !app_assoc. cbn [app].
+      destruct F as [|F0]; [lia|].
+      rewrite subexpr_paren.
+      pose proof (spine_lt_size y) as Sy.
+      rewrite (IH y ltac:(lia) Wx F0 0 (KRp :: KCast k :: rest)); [|lia|apply adm0|reflexivity|reflexivity|].
+      2:{ unfold cast_ok. apply orb_true_r. }
+      destruct (F0 - spine y)%nat as [|g2] eqn:Eg2; [lia|].
+      rewrite loop_stops by reflexivity.
+      rewrite (with_cast_some _ _ _ Hk).
+      cbn [spine]. rewrite Nat.sub_0_r. reflexivity.
 Qed.
 
 (** the reference parser reads back every well-parenthesised tree *)
@@ -149,8 +247,9 @@ Proof.
   intros e Hwp. unfold parse_expr, parse_fuel.
   pose proof (size_le_print e) as Hs. pose proof (spine_lt_size e) as Sp.
   rewrite <- (app_nil_r (print_plain e)) at 2.
-  rewrite (read_expr e Hwp (S (2 * List.length (print_plain e))) 0 []); [| lia | | reflexivity].
-  2:{ destruct e as [a|o' x1 x2|u' x1|x1]; try reflexivity. cbn [adm]. destruct o'; reflexivity. }
+  rewrite (read_expr (size e) e (le_n _) Hwp (S (2 * List.length (print_plain e))) 0 []);
+    [| lia | apply adm0 | reflexivity | reflexivity | ].
+  2:{ unfold cast_ok. apply orb_true_r. }
   destruct (S (2 * List.length (print_plain e)) - spine e)%nat as [|g] eqn:Eg; [lia|].
   rewrite loop_stops by reflexivity. reflexivity.
 Qed.
@@ -170,21 +269,24 @@ Lemma rp_ge e : wp e = true ->
   | _ => 100
   end <= rp e.
 Proof.
-  induction e as [a|o l IHl r IHr|u x IHx|x IHx]; intros Hwp; cbn [rp]; try lia.
+  induction e as [a|o l IHl r IHr|u x IHx|x IHx|x IHx k]; intros Hwp; cbn [rp]; try lia.
   - cbn [wp] in Hwp.
+    apply andb_true_iff in Hwp as [Hwp _].
     apply andb_true_iff in Hwp as [Hwp Hr]. apply andb_true_iff in Hwp as [Hwp _].
     apply andb_true_iff in Hwp as [Hwp _]. apply andb_true_iff in Hwp as [_ Wr].
     specialize (IHr Wr).
-    destruct r as [a|o' r1 r2|u' r1|r1].
+    destruct r as [a|o' r1 r2|u' r1|r1|r1 k1].
     + cbn [rp] in *. unfold UNARY_PRIORITY. lia.
     + apply N.ltb_lt in Hr. pose proof (lprio_bounds o') as B. unfold UNARY_PRIORITY in *. lia.
     + unfold UNARY_PRIORITY in *. lia.
     + cbn [rp] in *. unfold UNARY_PRIORITY. lia.
+    + cbn [rp] in *. unfold UNARY_PRIORITY. lia.
   - cbn [wp] in Hwp. apply andb_true_iff in Hwp as [Wx Hx]. specialize (IHx Wx).
-    destruct x as [a|o' x1 x2|u' x1|x1].
+    destruct x as [a|o' x1 x2|u' x1|x1|x1 k1].
     + cbn [rp] in *. unfold UNARY_PRIORITY. lia.
     + apply N.ltb_lt in Hx. pose proof (lprio_bounds o') as B. unfold UNARY_PRIORITY in *. lia.
     + unfold UNARY_PRIORITY in *. lia.
+    + cbn [rp] in *. unfold UNARY_PRIORITY. lia.
     + cbn [rp] in *. unfold UNARY_PRIORITY. lia.
 Qed.
 
@@ -198,11 +300,15 @@ Lemma prec_ok_facts P : prec_ok P = true ->
      lprio o <= lprio o' /\ lprio o <= rprio o' /\ lprio o <= UNARY_PRIORITY)
   /\ (forall o o', right_bin P o o' = false -> rprio o < lprio o')
   /\ (forall o u, left_un P o u = false -> lprio o <= UNARY_PRIORITY)
-  /\ (forall u o', un_bin P u o' = false -> UNARY_PRIORITY < lprio o').
+  /\ (forall u o', un_bin P u o' = false -> UNARY_PRIORITY < lprio o')
+  /\ cast_bin P = true /\ cast_un P = true /\ cast_cast P = true /\ left_cast P LowerThan CBare = true.
 Proof.
-  unfold prec_ok. intros H. apply andb_true_iff in H as [H1 H2].
+  unfold prec_ok. intros H.
+  apply andb_true_iff in H as [H C4]. apply andb_true_iff in H as [H C3].
+  apply andb_true_iff in H as [H C2]. apply andb_true_iff in H as [H C1].
+  apply andb_true_iff in H as [H1 H2].
   rewrite forallb_forall in H1. rewrite forallb_forall in H2.
-  repeat split.
+  repeat split; try assumption.
   - specialize (H1 o (In_binops o)). apply andb_true_iff in H1 as [H1 _].
     rewrite forallb_forall in H1. specialize (H1 o' (In_binops o')).
     apply andb_true_iff in H1 as [H1 _]. rewrite H in H1. cbn [orb] in H1.
@@ -229,36 +335,70 @@ Proof.
     apply N.ltb_lt. exact H2.
 Qed.
 
+Lemma print_wrap_last b e : b = true -> ends_bare (print_plain (wrap b e)) = false.
+Proof. intros ->. cbn [wrap]. apply ends_bare_paren. Qed.
+
+(** when the written text of [e] ends with a cast to a bare type name, darklua's walk down the
+    right spine of the TREE finds it *)
+Lemma ends_bare_trailing P o : left_cast P o CBare = true ->
+  forall e, ends_bare (print_plain (parenthesize P e)) = true -> trailing_cast P o e = true.
+Proof.
+  intros Hlc. induction e as [a|o' l IHl r IHr|u x IHx|x IHx|x IHx k]; intros H.
+  - discriminate H.
+  - cbn [parenthesize] in H. rewrite ends_bare_bin in H. cbn [trailing_cast].
+    destruct (right_needs P o' r) eqn:E; [rewrite print_wrap_last in H by reflexivity; discriminate H|].
+    cbn [wrap] in H. apply IHr. exact H.
+  - cbn [parenthesize] in H. rewrite ends_bare_un in H. cbn [trailing_cast].
+    destruct (operand_needs P u x) eqn:E; [rewrite print_wrap_last in H by reflexivity; discriminate H|].
+    cbn [wrap] in H. apply IHx. exact H.
+  - cbn [parenthesize] in H. rewrite ends_bare_paren in H. discriminate H.
+  - cbn [parenthesize] in H. rewrite ends_bare_cast in H. cbn [trailing_cast].
+    destruct k; [exact Hlc|discriminate H].
+Qed.
+
 Lemma parenthesize_wp P : prec_ok P = true -> forall e, wp (parenthesize P e) = true.
 Proof.
-  intros Hok. destruct (prec_ok_facts P Hok) as [FL [FR [FU FO]]].
-  induction e as [a|o l IHl r IHr|u x IHx|x IHx]; cbn [parenthesize wp]; try assumption; try reflexivity.
+  intros Hok. destruct (prec_ok_facts P Hok) as [FL [FR [FU [FO [CB [CU [CC LC]]]]]]].
+  induction e as [a|o l IHl r IHr|u x IHx|x IHx|x IHx k]; cbn [parenthesize wp]; try assumption; try reflexivity.
   - (* binary *)
     rewrite !wp_wrap, IHl, IHr. cbn [andb].
-    apply andb_true_iff. split; [apply andb_true_iff; split|].
-    + (* the left child, when it is a binary expression left without parentheses *)
-      destruct l as [a|o' l1 l2|u' l1|l1]; cbn [left_needs parenthesize wrap]; try reflexivity.
-      * destruct (left_bin P o o') eqn:E; cbn [wrap]; [reflexivity|].
-        apply N.leb_le. apply (FL o o' E).
-      * destruct (left_un P o u'); reflexivity.
-    + (* the loop that read the left child stops at o *)
-      apply N.leb_le.
-      destruct (left_needs P o l) eqn:E; cbn [wrap rp]; [apply lprio_bounds|].
-      pose proof (rp_ge _ IHl) as G.
-      destruct l as [a|o' l1 l2|u' l1|l1]; cbn [left_needs parenthesize] in *.
-      * cbn [rp]. apply lprio_bounds.
-      * destruct (FL o o' E) as [_ [A B]]. unfold UNARY_PRIORITY in *. lia.
-      * pose proof (FU o u' E). unfold UNARY_PRIORITY in *. lia.
-      * cbn [rp]. apply lprio_bounds.
-    + destruct r as [a|o' r1 r2|u' r1|r1]; cbn [right_needs parenthesize wrap]; try reflexivity.
-      * destruct (right_bin P o o') eqn:E; cbn [wrap]; [reflexivity|].
-        apply N.ltb_lt. apply (FR o o' E).
-      * destruct (right_un P o u'); reflexivity.
+    assert (Hleft :
+      match wrap (left_needs P o l) (parenthesize P l) with EBin o' _ _ => lprio o <=? lprio o' | _ => true end = true
+      /\ (lprio o <=? rp (wrap (left_needs P o l) (parenthesize P l))) = true
+      /\ negb (is_lt o && ends_bare (print_plain (wrap (left_needs P o l) (parenthesize P l)))) = true).
+    { destruct (left_needs P o l) eqn:E; cbn [wrap].
+      - split; [reflexivity|]. split; [apply N.leb_le; cbn [rp]; apply lprio_bounds|].
+        rewrite ends_bare_paren, andb_false_r. reflexivity.
+      - unfold left_needs in E. apply orb_false_iff in E as [Eb Et].
+        pose proof (rp_ge _ IHl) as G.
+        split; [|split].
+        + destruct l as [a|o' l1 l2|u' l1|l1|l1 k1]; cbn [parenthesize]; try reflexivity.
+          apply N.leb_le. apply (FL o o' Eb).
+        + apply N.leb_le.
+          destruct l as [a|o' l1 l2|u' l1|l1|l1 k1]; cbn [parenthesize] in *.
+          * cbn [rp]. apply lprio_bounds.
+          * destruct (FL o o' Eb) as [_ [A B]]. unfold UNARY_PRIORITY in *. lia.
+          * pose proof (FU o u' Eb). unfold UNARY_PRIORITY in *. lia.
+          * cbn [rp]. apply lprio_bounds.
+          * cbn [rp]. apply lprio_bounds.
+        + destruct o; try reflexivity. cbn [is_lt andb].
+          destruct (ends_bare (print_plain (parenthesize P l))) eqn:Eb'; [|reflexivity].
+          rewrite (ends_bare_trailing P LowerThan LC l Eb') in Et. discriminate Et. }
+    destruct Hleft as [H1 [H2 H3]]. rewrite H1, H2, H3. cbn [andb].
+    rewrite andb_true_r.
+    destruct r as [a|o' r1 r2|u' r1|r1|r1 k1]; cbn [right_needs parenthesize wrap]; try reflexivity.
+    + destruct (right_bin P o o') eqn:E; cbn [wrap]; [reflexivity|].
+      apply N.ltb_lt. apply (FR o o' E).
+    + destruct (right_un P o u'); reflexivity.
   - (* unary *)
     rewrite wp_wrap, IHx. cbn [andb].
-    destruct x as [a|o' x1 x2|u' x1|x1]; cbn [operand_needs parenthesize wrap]; try reflexivity.
+    destruct x as [a|o' x1 x2|u' x1|x1|x1 k1]; cbn [operand_needs parenthesize wrap]; try reflexivity.
     destruct (un_bin P u o') eqn:E; cbn [wrap]; [reflexivity|].
     apply N.ltb_lt. apply (FO u o' E).
+  - (* cast *)
+    rewrite wp_wrap, IHx. cbn [andb].
+    destruct x as [a|o' x1 x2|u' x1|x1|x1 k1]; cbn [cast_inner_needs parenthesize];
+      rewrite ?CB, ?CU, ?CC; reflexivity.
 Qed.
 
 Lemma strip_wrap b e : strip (wrap b e) = strip e.
@@ -267,14 +407,14 @@ Proof. destruct b; reflexivity. Qed.
 (** the parentheses the generator writes never change the operator nesting *)
 Lemma strip_parenthesize P e : strip (parenthesize P e) = strip e.
 Proof.
-  induction e as [a|o l IHl r IHr|u x IHx|x IHx]; cbn [parenthesize strip];
+  induction e as [a|o l IHl r IHr|u x IHx|x IHx|x IHx k]; cbn [parenthesize strip];
     rewrite ?strip_wrap; congruence.
 Qed.
 
 (** PARENTHESISATION ROUND TRIP.  For every table of predicates satisfying the decidable
-    condition [prec_ok], for EVERY operator tree (any depth), the reference parser reads the
-    tokens the generator writes back as the same tree with the generator's parentheses made
-    explicit; in particular with the same operator nesting. *)
+    condition [prec_ok], for EVERY tree of operators, casts and parentheses (any depth), the
+    reference parser reads the tokens the generator writes back as the same tree with the
+    generator's parentheses made explicit; in particular with the same nesting. *)
 Theorem paren_roundtrip : forall P, prec_ok P = true ->
   forall e, parse_expr (tokens_of_expr P e) = Some (parenthesize P e).
 Proof.
